@@ -120,6 +120,41 @@ def items_from_export(recs, alternate):
     return items
 
 
+def name_items(ctx, histories):
+    """spec/OutputNames.tla: the alphabet of names.  TLC proves that with the documented string operations ("only the
+    extension is replaced / removed") every file of every scenario is where the statement says and that distinct plots
+    have distinct files, refutes the same for wrong operations (sensitivity guards), and exports the scenarios: two
+    plots whose names differ only in a tail made of the letters of the extensions, directories and output directories
+    containing ".tex" / ".pdf", the directory name given by the context / MakeFilename / MakeFilename(overwrite), two
+    image formats, two data extensions - with the stated place of every file.  Each is replayed over a history of the
+    Output model (2 plain plots, default settings) followed by an untouched run."""
+    tag = "thorough" if ctx.thorough else "quick"
+    guards = ("charset", "replace") + (("firstdot",) if ctx.thorough else ())
+    notes = []
+    for g in guards:
+        res = ctx.mc("OutputNames", "OutputNames_%s%s.cfg" % (g, "_full" if ctx.thorough else ""), expect_violation="report")
+        if not res.violated:
+            raise core.MachineryError("OutputNames: the wrong string operation %r is not refuted by TLC" % g)
+        notes.append("StripMode=%s: TLC refutes %s" % (g, res.violated))
+    ctx.extra["model_of_wrong_extension_handling"] = notes
+    if ctx.thorough:
+        ctx.mc("OutputNames", "OutputNames_thorough.cfg", coverage=True, must_cover=("Name", "WriteCSV", "RenderWrite", "LaTeX", "ToPNG"))
+    recs = ctx.export("OutputNames", "OutputNames_%s_export.cfg" % tag, min_records=100)
+    classes = set(c for r in recs for c in r["class"])
+    if not {"ends-in-pdf-letter", "ends-in-tex-letter", "contains-ext", "plain"} <= classes:
+        raise core.MachineryError("OutputNames export: classes %r" % sorted(classes))
+    recs.sort(key=lambda r: (r["k"], r["dir"], r["via"]))
+    ctx.sample({"exported_name_scenario": recs[len(recs) // 2]})
+    ctx.extra["name_scenarios"] = len(recs)
+    items = []
+    for i, r in enumerate(recs):
+        sc = {"srcs": [1, 1], "obj": [False, False], "grouped": False,
+              "names": {k: r[k] for k in ("root", "dir", "via", "fmt", "cext", "names", "class", "stale", "stated")}}
+        steps = list(histories[(i * 7) % len(histories)]) if histories else [{"del": [], "data": [], "tpl": False}]
+        items.append((sc, DEFAULT, steps + [{"del": [], "data": [], "tpl": False}], i % 2 == 1))
+    return items
+
+
 def random_history(rnd):
     kind = rnd.choice(["plain", "plain", "group", "group", "obj"])
     if kind == "group":
@@ -268,6 +303,12 @@ def run(ctx):
             sampled = True
         items.extend(items_from_export(recs, alternate=not ctx.thorough))
     ctx.extra["exported_histories"] = len(items)
+    # ---- the alphabet of names (spec/OutputNames.tla) over histories of the Output model
+    plain2 = [steps for sc, st, steps, same in items if not sc["grouped"] and sc["srcs"] == [1, 1] and st == DEFAULT
+              and not any(sc["obj"])]
+    if not plain2:
+        raise core.MachineryError("no exported history of two plain plots with default settings")
+    items.extend(name_items(ctx, plain2))
     rnd = random.Random(ctx.seed)
     items.extend(random_history(rnd) for _ in range(2000 if ctx.thorough else 120))
     ol.check_histories(ctx, items, "replay")
